@@ -8,20 +8,21 @@ from . import common as K
 LEVEL = 'other'
 EXPLANATION = ('Proved: the sign-table chain of C01 holds for any spelling of the blades (the _swap_blades contract is stated for arbitrary distinct '
                'characters and an arbitrary target spelling; lemma L-orient: twisting the table by any orientation o(K) preserves the Clifford '
-               'relations), _blade2canon / accessors apply the spelling parity; _call_binary rejects operands unless their algebras are identical '
+               'relations), _blade2canon / accessors apply the spelling parity; the custom-basis branch of __post_init__ gives the j-th vector name the key 2**j, every name the OR of its generators\' keys and fills bin2canon as the inverse in ascending key order, for every well-formed basis; _call_binary rejects operands unless their algebras are identical '
                'or compare equal.  Refuted deductively (known findings F8a/F8b): the dataclass __eq__ of Algebra ignores signature and '
                'start_index.  Bounded: every operator of custom-basis algebras (named 2DPGA/3DPGA/STAP and seeded admissible bases d<=4) against '
                'the real default-basis algebra under the relabelling map; duals/regressive product differ by the pseudoscalar orientation '
                '(known finding F9); rejection of differing algebras.')
 TRUSTED = ['z3 5.1 (python API)', 'kvc VC generator', 'CPython ast module']
-ASSUMPTIONS = [K.ASSUME_CPYTHON, 'custom-basis canon2bin/bin2canon comprehensions and fromname tables: bounded stand-in only',
+ASSUMPTIONS = [K.ASSUME_CPYTHON, 'custom-basis branch of __post_init__: under contract for every well-formed basis (builtin contracts of min / sorted / enumerate / filtering comprehension assumed); fromname tables: bounded stand-in only',
                'matrix representations in custom bases: see C18 (known finding F10)']
-ASSUMED = ['Algebra.__post_init__ custom-basis branch', 'dataclass-generated __eq__ compares exactly the fields with compare=True, as tuples']
+ASSUMED = ['dataclass-generated __eq__ compares exactly the fields with compare=True, as tuples']
 
 
 def build(H, tier, seed):
     A.vc_swap_blades(H, lengths=range(0, 9) if tier == 'quick' else range(0, 17))
     A.vc_compute_sign(H)
+    A.vc_custom_basis(H)
     A.vc_blade2canon(H)
     A.vc_blade2canon_concrete(H)
     A.vc_bladedict_getitem(H)
